@@ -1,6 +1,7 @@
 RAFT = {"dir": "consensus/raft", "pkgname": "raft"}
 PSTORE = {"dir": "pstoremgr", "pkgname": "pstoremgr"}
 DSSTATE = {"dir": "state/dsstate", "pkgname": "dsstate"}
+CMDUTILS = {"dir": "cmdutils", "pkgname": "cmdutils"}
 
 SPEC = {
     "go": [dict(RAFT, files=["raft/c14_rig_test.go", "raft/c14_raft_test.go", "raft/c14_snap_test.go"], test="TestVerifC14Raft",
@@ -8,7 +9,9 @@ SPEC = {
            dict(PSTORE, files=["pstoremgr/c14_pstore_test.go"], test="TestVerifC14Pstore",
                 n_quick=400, n_thorough=6000, shards_quick=2, shards_thorough=8),
            dict(DSSTATE, files=["dsstate/c14_pins.go", "dsstate/c14_dsstate_test.go"], test="TestVerifC14Dsstate",
-                n_quick=200, n_thorough=4000, shards_quick=1, shards_thorough=4)],
+                n_quick=200, n_thorough=4000, shards_quick=1, shards_thorough=4),
+           dict(CMDUTILS, files=["cmdutils/c14_export_test.go"], test="TestVerifC14Cmdutils",
+                n_quick=60, n_thorough=600, shards_quick=1, shards_thorough=4)],
     "rule": "TODO",
     "codes": {1: "model_eq_impl (C14)", 10: "backup_rotation step (C14)", 11: "backup_rotation history (C14)",
               12: "peerstore_skips_garbage (C14): LoadPeerstore returned a nil address or the import crashed",
@@ -16,8 +19,9 @@ SPEC = {
               15: "snapshot_offline_id (C14): a saved snapshot does not read back (offline / raw / started peer) as the saved pinset",
               16: "export_complete (C14): the exported stream is not exactly the pinset",
               17: "export_import_id (C14): export then import does not reproduce the pinset",
+              18: "import_never_panics (C14): ImportState took the process down",
               13: "peerstore_roundtrip (C14): the saved file does not read back as the same addresses in the same priority order"},
-    "tags": {},
+    "tags": {1: "origins-undecodable-import", 2: "crdt-import-empty-panics"},
     "trusted": [],
     "level_text": "TODO",
     "level_note": "TODO",
